@@ -117,6 +117,10 @@ type OnSend struct {
 
 // AtCall: an assertion over the caller's variables checked immediately
 // before every call whose callee name contains Callee.
+type BindClause struct {
+	Name, Callee, Site string
+}
+
 type AtCall struct {
 	Callee string // substring of the callee name; "name@text" also requires text in the call's source snippet
 	Site   string
@@ -157,6 +161,7 @@ type Contract struct {
 	GhostInits []*Clause  // ghost-init g_x == expr : the activation starts its own ghost variables
 	OnSends  []*OnSend  // on-send / at-send clauses
 	AtCalls  []*AtCall // assertions checked at call sites inside the function
+	Binds    []*BindClause // names for the results of calls inside the function
 	Semaphores []string // channel expressions (params / receiver fields) used as counting semaphores
 	Notes    []string
 }
@@ -410,6 +415,19 @@ func loadPkgSpec(path, pkgPath string) (*PkgSpec, error) {
 				ac.Callee = ac.Callee[:j]
 			}
 			cur.AtCalls = append(cur.AtCalls, ac)
+		case "bind":
+			// bind <name> == <callee-substr>[@site-substr]: <name> stands for what
+			// that call returned, in later at-call clauses, invariants and ensures
+			parts := strings.Fields(rest)
+			if len(parts) != 3 || parts[1] != "==" {
+				return nil, fmt.Errorf("%s:%d: bad bind (bind <name> == <callee>[@site])", path, ln.n)
+			}
+			b := &BindClause{Name: parts[0], Callee: parts[2]}
+			if j := strings.Index(b.Callee, "@"); j >= 0 {
+				b.Site = b.Callee[j+1:]
+				b.Callee = b.Callee[:j]
+			}
+			cur.Binds = append(cur.Binds, b)
 		case "chaninv":
 			d, err := parseChanInv(rest, path, ln.n, pkgPath)
 			if err != nil {
